@@ -34,7 +34,9 @@ struct Lin {
 	std::vector<Op> &ops; int64_t now; uint64_t states = 0, limit_states; bool inconclusive = false; bool empty_trigger_refused = false;   // network cache: a store whose trigger list holds "" is refused and removes the key
 	std::unordered_set<std::string> seen; std::function<unsigned(const std::string&)> server_of;
 	Lin(std::vector<Op> &o,int64_t n,uint64_t ls) : ops(o), now(n), limit_states(ls) {}
+	int64_t base_now = 0;
 	bool apply(CacheModel &m,const Op &o){
+		if(o.kind == "tick") return true;   // advances the clock (see search): everything linearized behind it sees the later time
 		if(o.kind == "store") { if(empty_trigger_refused && o.trig.count("")) m.remove(o.key); else m.store(o.key,o.val,o.trig,o.deadline,now); return true; }
 		if(o.kind == "fetch") { const CacheEntry *e = nullptr; bool h = m.fetch(o.key,now,&e); if(h != o.hit) return false; if(!h) return true;
 			if((o.how & 3) != 3 && e->val != o.rval) return false; if((o.how & 3) <= 1 && e->trig != o.rtrig) return false; if(((o.how & 3) == 0 || (o.how & 3) == 2) && e->deadline != o.rdl) return false; return true; }
@@ -51,12 +53,14 @@ struct Lin {
 		if(++states > limit_states){ inconclusive = true; return true; }
 		std::string key = std::to_string(done) + "#" + canon(m);
 		if(!seen.insert(key).second) return false;
+		// the clock the model sees: the start time plus every clock advance already linearized
+		if(!base_now) base_now = now; int64_t tnow = base_now; for(size_t i=0;i<ops.size();i++) if((done >> i & 1) && ops[i].kind == "tick") tnow += ops[i].deadline;
 		// minimal ops: not done and no other pending op returned before it was invoked
 		uint64_t min_ret = ~0ULL; for(size_t i=0;i<ops.size();i++) if(!(done >> i & 1) && ops[i].ret < min_ret) min_ret = ops[i].ret;
 		for(size_t i=0;i<ops.size();i++){
 			if(done >> i & 1) continue;
 			if(ops[i].inv > min_ret) continue;
-			CacheModel n = m;
+			CacheModel n = m; now = tnow;   // deeper levels of the search change it
 			if(!apply(n,ops[i])) continue;
 			if(search(done | (1ULL << i),n)) return true;
 		}
